@@ -190,6 +190,10 @@ class _Walker:
             if isinstance(f, ast.Attribute):
                 if f.attr in ALIAS_FUNCS and e.args:
                     return self.roots(e.args[0])
+                if f.attr == 'to_dict' and isinstance(f.value, ast.Attribute) and f.value.attr == 'model':
+                    # IsothermBaseModel.to_dict() hands out the live parameter dictionary ('parameters': self.params):
+                    # its result aliases the model, hence the isotherm that owns it
+                    return self.roots(f.value)
                 if f.attr in FRESH or f.attr in INPLACE_METHODS:
                     return set()
                 r = self.roots(f.value)
